@@ -82,6 +82,10 @@ SPEC = dict(
          "interleaved (30% of ops) a history on ONE long-lived real StressRelief per case (real Start, loop off): sreload "
          "<mode> <rate> (UpdateFromConfig), srecalc (Recalc sets stressed from the mode), sask <id> answered by the long-lived "
          "instance and by a fresh one at the rate configured last; "
+         "15% of quick cases (4% thorough) add a wiring leg: a real InMemCollector + real StressRelief + MockConfig with non-empty "
+         "(cfgHash, rulesHash); creload cfg|rules|both <rate> changes SamplingRate, bumps the hash(es) and fires the registered "
+         "reload callbacks as fileConfig.Reload does; cask <fresh id> asks the collector's StressRelief, a fresh instance at the "
+         "rate in force, and ProcessSpanImmediately (stamped rate); "
          "some cases end with a frac op (4000 pseudo-random IDs at a small rate). non-trivial = some trace ID of the case is "
          "kept at one rate and dropped at another; distinct by transcript hash",
     trusted_base=["crypto/sha1, encoding/binary and dgryski/go-wyhash as called by the harness to produce the hash graph "
